@@ -180,4 +180,54 @@ theorem dispatchDecision (ctx : List Ctx) (rest : Text) :
 theorem runOptionsUpdate : Gen.runOptionsUpdate = RunOptions.update := by
   funext o g; cases g <;> rfl
 
+/-! ### manager.rs (anchor of C11, C10, C16): the TEXT of every binding the managers push, with the
+    index expression used at each site, the matcher table, the generated names, the fixed bindings
+    and start index of the framed manager, the separators.  The control flow of the managers (look
+    up, allocate, record) is not translated: it stays tied by the byte-for-byte correspondence. -/
+
+theorem localDefaultPortVars (i : Nat) :
+    [Binding.render (.stdoutPort i), Binding.render (.mutex (i + 1))] = Gen.localDefaultPortVars i := by
+  simp only [Binding.render, Gen.localDefaultPortVars, lf3, List.append_assoc, List.cons_append, List.nil_append]
+
+theorem localPrinterVar (i p m : Nat) (term : Option Char) :
+    Binding.render (.printerL i p m term) = Gen.localPrinterVar i p m term := by
+  simp only [Binding.render, Gen.localPrinterVar, lf3, terminatorEscape, List.append_assoc, List.cons_append, List.nil_append]
+
+theorem localFilePortVars (i : Nat) (filename : Text) :
+    [Binding.render (.filePort i filename), Binding.render (.mutex (i + 1))] = Gen.localFilePortVars i filename := by
+  simp only [Binding.render, Gen.localFilePortVars, lf3, schemeEscape, List.append_assoc, List.cons_append, List.nil_append]
+
+theorem localFilePortFini (i : Nat) :
+    cl!"(close-port " ++ lf3 (cl!"port") i ++ cl!")" = Gen.localFilePortFini i := by
+  simp only [Gen.localFilePortFini, lf3, List.append_assoc, List.cons_append, List.nil_append]
+
+theorem matcherName : Gen.matcherName = FV.matcherName := by
+  funext p b; simp only [Gen.matcherName, FV.matcherName, isPattern]; rfl
+
+theorem matcherVar (i : Nat) (pattern : Text) (insensitive : Bool) :
+    Binding.render (.matcher i pattern insensitive) = Gen.matcherVar i pattern insensitive := by
+  simp only [Binding.render, Gen.matcherVar, lf3, matcherName, schemeEscape, List.append_assoc, List.cons_append, List.nil_append]
+
+theorem framedPrinterVar (i : Nat) : Binding.render (.printerD i) = Gen.framedPrinterVar i := by
+  simp only [Binding.render, Gen.framedPrinterVar, lf3, List.append_assoc, List.cons_append, List.nil_append]
+
+theorem framedInit : Manager.distInit.vars.map Binding.render = Gen.framedFixedVars
+    ∧ Manager.distInit.varIndex = Gen.framedStartIndex ∧ Manager.localInit.varIndex = Gen.plainStartIndex
+    ∧ Manager.localInit.vars = [] := by
+  refine ⟨?_, rfl, rfl, rfl⟩
+  decide
+
+theorem printerName (i : Nat) : lf3 (cl!"print") i = Gen.printerName i := by
+  simp only [Gen.printerName, lf3, List.append_assoc, List.cons_append, List.nil_append]
+
+theorem matcherRef (i : Nat) : lf3 (cl!"match") i = Gen.matcherRef i := by
+  simp only [Gen.matcherRef, lf3, List.append_assoc, List.cons_append, List.nil_append]
+
+theorem definitionsAndModules (m : Manager) :
+    m.definitions = joinWith (if m.distributed then Gen.framedSeparator else Gen.plainSeparator) (m.vars.map Binding.render)
+    ∧ m.modules = (if m.distributed then Gen.framedModules else Gen.plainModules) := by
+  constructor
+  · unfold Manager.definitions; cases m.distributed <;> rfl
+  · unfold Manager.modules; cases m.distributed <;> rfl
+
 end FV.TieTables
